@@ -107,10 +107,47 @@ Eval vm_compute in (String.concat "," (map (fun p => string_of_nat (fst p)) bad)
                    "correspondence", not bad, "disagreeing family indices / errors: %s" % bad[:10])
 
 
+def judge_bottleneck(ctx, base, outs, cobjs, worst):
+    """bottleneck of the optimised modes vs uniform and vs the exact optimum; second-pass deviations wait for the model's verdict"""
+    def report(mode, kind, text):
+        if base.get("real"):
+            text += " -- %s: %s" % (base["real"][0], str(base["real"][1]).replace("\n", " ; ")[:500])
+        if mode == "twice":
+            c01.PENDING.append((id(cobjs[mode]), kind, text, cobjs[mode]))
+        else:
+            ctx.violation("once:" + kind, text, {"case": cobjs[mode]})
+    if outs["uniform"][0] != "ok" or not outs["uniform"][2]:
+        return None
+    uni = max(outs["uniform"][2])
+    opt = pressure.optimum(base, outs["uniform"])
+    for mode in ("once", "twice"):
+        o = outs[mode]
+        if o[0] != "ok" or not o[2]:
+            continue
+        b = max(o[2])
+        if b > uni + 1e-9:
+            report(mode, "bottleneck-above-uniform", "optimised bottleneck %s > uniform %s" % (b, uni))
+        under = float(opt - F(b))
+        if mode == "once":
+            worst[0] = max(worst[0], under)
+        # Theorem C02_optimum_is_lower_bound with the eps = 0.005 splits of one balancing pass bounds the
+        # undercut by 0.005 per micro-op that has a choice of ports (+ the 0.01 rounding of the totals).
+        nmulti = sum(1 for fi in base["kernel"] if base["forms"][fi]["tp"] != 0.0
+                     for u in base["forms"][fi]["uops"] if len(list(u[1])) >= 2)
+        if under > 0.01 + 1e-9:
+            if mode == "once" and under <= 0.01 + 0.005 * nmulti + 1e-9:
+                ctx.violation("once:bottleneck-below-optimum-accumulated-half-steps",
+                              "bottleneck %s undercuts the exact optimum %s by %.4f (<= 0.005 per multi-port micro-op: %d)"
+                              % (b, float(opt), under, nmulti), {"case": cobjs[mode]})
+            else:
+                report(mode, "bottleneck-below-optimum", "bottleneck %s undercuts the exact optimum %s by %.4f" % (b, float(opt), under))
+    return uni, opt
+
+
 def random_check(ctx, n):
     """Each random kernel under uniform / once / twice; bottleneck comparisons with exact optimum."""
     cases_outs = []
-    worst_under = 0.0
+    worst = [0.0]
     for i in range(n):
         base = pressure.gen_case(ctx.rng, mode="uniform")
         if any(isinstance(f["uops"], dict) for f in base["forms"]):
@@ -121,44 +158,57 @@ def random_check(ctx, n):
                 cases_outs.append((c, pressure.run_impl(c)))
             ctx.count()
             continue
-        outs = {}
+        outs, cobjs = {}, {}
         for mode in pressure.MODES:
             c = dict(base, mode=mode)
             outs[mode] = pressure.run_impl(c)
+            cobjs[mode] = c
             cases_outs.append((c, outs[mode]))
         ctx.count()
         if c01.nontrivial(base):
             ctx.nontriv(c01.case_key(base))
-        if outs["uniform"][0] != "ok" or not outs["uniform"][2]:
+        r = judge_bottleneck(ctx, base, outs, cobjs, worst)
+        if r is None:
             continue
-        uni = max(outs["uniform"][2])
-        opt = pressure.optimum(base, outs["uniform"])
-        for mode in ("once", "twice"):
-            o = outs[mode]
-            if o[0] != "ok" or not o[2]:
-                continue
-            b = max(o[2])
-            pre = "second-pass:" if mode == "twice" else "once:"
-            if b > uni + 1e-9:
-                ctx.violation(pre + "bottleneck-above-uniform", "optimised bottleneck %s > uniform %s" % (b, uni), {"case": dict(base, mode=mode)})
-            under = float(opt - F(b))
-            if mode == "once":
-                worst_under = max(worst_under, under)
-            # Theorem C02_optimum_is_lower_bound with the eps = 0.005 splits of one balancing pass bounds the
-            # undercut by 0.005 per micro-op that has a choice of ports (+ the 0.01 rounding of the totals).
-            nmulti = sum(1 for fi in base["kernel"] if base["forms"][fi]["tp"] != 0.0
-                         for u in base["forms"][fi]["uops"] if len(list(u[1])) >= 2)
-            if under > 0.01 + 1e-9:
-                if mode == "once" and under <= 0.01 + 0.005 * nmulti + 1e-9:
-                    ctx.violation("once:bottleneck-below-optimum-accumulated-half-steps",
-                                  "bottleneck %s undercuts the exact optimum %s by %.4f (<= 0.005 per multi-port micro-op: %d)"
-                                  % (b, float(opt), under, nmulti), {"case": dict(base, mode=mode)})
-                else:
-                    ctx.violation(pre + "bottleneck-below-optimum", "bottleneck %s undercuts the exact optimum %s by %.4f" % (b, float(opt), under),
-                                  {"case": dict(base, mode=mode)})
+        uni, opt = r
         if i < 2:
             ctx.sample({"case": base, "uniform": uni, "optimum": float(opt), "once": outs["once"][2] if outs["once"][0] == "ok" else outs["once"][1]})
-    ctx.coverage["worst_undercut_once"] = worst_under
+    ctx.coverage["worst_undercut_once"] = worst[0]
+    return cases_outs
+
+
+def real_path_check(ctx, n):
+    """generated kernels through the real parse + add_semantics + CLI scheduling path (the same entry hit by several lines)"""
+    import models
+    import os
+    cases_outs = []
+    worst = [0.0]
+    done = 0
+    for i in range(n):
+        arch = ctx.rng.choice([a for a in models.nonempty_archs() if a != "zen1" and (ctx.tier != "quick" or a in models.SMALL + ["zen2", "hsw", "n1"])])
+        isa = "x86" if arch in models.X86 else "aarch64"
+        path = os.path.join(ctx.scratch, "rep%d.s" % i)
+        text = pressure.repeated_entry_kernel(ctx.rng, isa)
+        with open(path, "w") as f:
+            f.write(text)
+        outs, cobjs = {}, {}
+        try:
+            for mode in pressure.MODES:
+                c, o = pressure.real_case(arch, path, mode)
+                c["real"] = [arch, "generated:" + text]
+                outs[mode], cobjs[mode] = o, c
+        except Exception as e:  # noqa
+            ctx.coverage.setdefault("real_skipped", []).append("%s: %r" % (arch, e))
+            continue
+        base = cobjs["uniform"]
+        if any(isinstance(f["uops"], dict) for f in base["forms"]):
+            continue
+        for mode in pressure.MODES:
+            cases_outs.append((cobjs[mode], outs[mode]))
+        ctx.count()
+        done += 1
+        judge_bottleneck(ctx, base, outs, cobjs, worst)
+    ctx.coverage["real_path_kernels"] = done
     return cases_outs
 
 
@@ -170,6 +220,8 @@ def run(ctx):
     family_check(ctx)
     co = random_check(ctx, ctx.n(150, 2500))
     c01.run_cases(ctx, co, "random")
+    rp = real_path_check(ctx, ctx.n(24, 300))
+    c01.run_cases(ctx, rp, "realpath", shard_size=4)
 
 
 def replay(ctx, obj):
@@ -184,8 +236,16 @@ def replay(ctx, obj):
             ctx.violation(obj["key"], obj["what"], r)
         return
     case = r["case"]
-    out = pressure.run_impl(case)
-    uni = pressure.run_impl(dict(case, mode="uniform"))
+    if case.get("real") and str(case["real"][1]).startswith("generated:"):
+        import os
+        path = os.path.join(ctx.scratch, "replay.s")
+        with open(path, "w") as f:
+            f.write(case["real"][1][len("generated:"):])
+        _, out = pressure.real_case(case["real"][0], path, case["mode"])
+        case, uni = pressure.real_case(case["real"][0], path, "uniform")
+    else:
+        out = pressure.run_impl(case)
+        uni = pressure.run_impl(dict(case, mode="uniform"))
     opt = pressure.optimum(case, uni)
     b = max(out[2])
     ctx.count()
